@@ -435,6 +435,11 @@ impl Iterator for ClosestBucketsIter {
                 if let Some(i) = self.next_in(i) {
                     self.state = ClosestBucketsIterState::ZoomIn(i);
                     Some(i)
+                } else if i.get() == 0 {
+                    // Bucket `0` has just been yielded (as the starting bucket or
+                    // as the last bucket while zooming in): do not yield it again.
+                    self.state = ClosestBucketsIterState::ZoomOut(i);
+                    self.next()
                 } else {
                     let i = BucketIndex(0);
                     self.state = ClosestBucketsIterState::ZoomOut(i);
